@@ -52,3 +52,9 @@ func VerifPlainHeaderEnd(header, b []byte) int {
 	con := &Connection{plainHeader: header}
 	return con.plainHeaderEnd(b)
 }
+
+// VerifPlainState returns what the connection holds of the plain text phase: len(plain),
+// len(plainHeader), plainBody, plainUnframed and len(received).
+func (con *Connection) VerifPlainState() (plain, header int, body int64, unframed bool, received int) {
+	return len(con.plain), len(con.plainHeader), con.plainBody, con.plainUnframed, len(con.received)
+}
